@@ -296,11 +296,15 @@ func c04One(t *testing.T, run *c04Run) {
 	status := "ok"
 	var sched []string
 	var fault rt.M
+	hist := map[string][][2]string{}
 	doStep := func(tk *rt.Task) bool {
 		label, kind := tk.Label, tk.Kind
 		w.step++
 		ok := s.Step(tk)
 		sched = append(sched, tk.Name)
+		if tk.State == rt.Ready {
+			hist[tk.Name] = append(hist[tk.Name], [2]string{tk.Label, tk.Kind})
+		}
 		if run.Trace {
 			p := w.project()
 			p["i"], p["t"], p["label"], p["op"] = w.step, tk.Name, label, kind
@@ -348,13 +352,15 @@ func c04One(t *testing.T, run *c04Run) {
 			}
 			want := 1
 			fmt.Sscanf(parts[2], "%d", &want)
-			seen := 0
 			for n := 0; n < 600 && alive && s.Runnable(tk); n++ {
-				if tk.Steps > 0 && strings.Contains(tk.Label, parts[0]) && tk.Kind == parts[1] {
-					seen++
-					if seen >= want {
-						break
+				seen := 0
+				for _, h := range hist[tk.Name] {
+					if strings.Contains(h[0], parts[0]) && h[1] == parts[1] {
+						seen++
 					}
+				}
+				if seen >= want && strings.Contains(tk.Label, parts[0]) && tk.Kind == parts[1] {
+					break
 				}
 				if !doStep(tk) {
 					alive = false
